@@ -247,7 +247,70 @@ def dictionary_inputs(ctx):
         yield 'select %s(x) %s, t.%s from %s where c = %s' % (w, w, w, w, w)
 
 
+DEEP_SCRIPT = r"""
+import sys, json
+sys.path.insert(0, %(repo)r)
+import sqlparse
+from sqlparse.exceptions import SQLParseError
+LIMIT = %(limit)d
+def build(kind, d):
+    if kind == 'paren': return 'select ' + '(' * d + 'foo' + ')' * d + ' from t'
+    if kind == 'call': return 'select ' + 'f(' * d + 'a b' + ')' * d
+    if kind == 'bracket': return 'select a' + '[' * d + 'x y' + ']' * d
+    if kind == 'case': return 'select ' + 'case when a then ' * d + 'b c' + ' end' * d
+    if kind == 'sub': return 'select * from ' + '(select x y from ' * d + 't' + ') s' * d
+def ill(stmt):
+    # iterative: parents, membership, non-empty groups
+    st = [stmt]
+    while st:
+        n = st.pop()
+        if not n.tokens: return 'empty group %%s' %% type(n).__name__
+        for c in n.tokens:
+            if c.parent is not n: return 'child %%r of %%s has parent %%s' %% (str(c)[:20], type(n).__name__, type(c.parent).__name__ if c.parent is not None else None)
+            if c.is_group: st.append(c)
+    return None
+bad = []
+sys.setrecursionlimit(LIMIT)
+for kind in ('paren', 'call', 'bracket', 'case', 'sub'):
+    for d in range(LIMIT // 5, LIMIT + 5):
+        t = build(kind, d)
+        try:
+            r = sqlparse.parse(t)
+        except SQLParseError:
+            continue
+        except RecursionError:
+            bad.append([kind, d, 'RecursionError escaped']); continue
+        sys.setrecursionlimit(100000)
+        try:
+            for s0 in r:
+                w = ill(s0)
+                if w: bad.append([kind, d, w]); break
+            else:
+                if ''.join(str(s0) for s0 in r) != t: bad.append([kind, d, 'text not preserved'])
+        finally:
+            sys.setrecursionlimit(LIMIT)
+print(json.dumps(bad))
+"""
+
+
+def deep_wellformed(ctx):
+    """every nesting depth around the interpreter's recursion limit (a small limit, in a subprocess): whenever parse() RETURNS a tree, that tree is
+    well-formed (parents, membership, non-empty groups, text) — a grouping step interrupted half-way must never be handed out"""
+    import subprocess, json
+    for limit in ((150,) if ctx.quick() else (150, 240, 400)):
+        p = subprocess.run([sys.executable, '-c', DEEP_SCRIPT % {'repo': REPO, 'limit': limit}], stdout=subprocess.PIPE, stderr=subprocess.PIPE, timeout=900)
+        ctx.evaluations += 5 * limit
+        ctx.count('deep nesting scan (limit %d)' % limit)
+        if p.returncode != 0:
+            ctx.notes.append('deep nesting scan exited with %d: %s' % (p.returncode, p.stderr.decode()[-200:]))
+            continue
+        for kind, d, what in json.loads(p.stdout.decode() or '[]')[:5]:
+            ctx.fail('parse() returned an ill-formed tree for nesting close to the recursion limit: ' + what, 'kind=%s depth=%d limit=%d' % (kind, d, limit),
+                     observed=what, required='well-formed tree or SQLParseError', deep=[kind, d, limit])
+
+
 def run(ctx):
+    deep_wellformed(ctx)
     # statements that are large in one dimension (long lists, chains, many tokens, deep nesting, many statements): the property has no size bound
     for s in [s for s in gen.scale_texts(ctx.rng) if len(s) < 5000]:
         oracle(ctx, s)
@@ -278,6 +341,9 @@ def run(ctx):
 
 def replay(ctx, payload):
     n0 = len(ctx.failures)
+    if (payload.get('extra') or {}).get('deep'):
+        deep_wellformed(ctx)
+        return len(ctx.failures) > n0
     if isinstance(payload.get('input'), str) and payload['input'].startswith('heap '):
         io, problems = streams.heap_impl(payload['input'])
         if problems:
